@@ -3,7 +3,7 @@ from ..codec import Rng, expand, spec_len
 from .. import oracle as o
 
 ID = 'C02'
-RULE = ('one record per operation history on hash contexts (update, update_mut, clone, reset, reset_with_key, finalize_reset, '
+RULE = ('one record per operation history on hash contexts (update, update_mut, clone, clone_from, reset, reset_with_key, finalize_reset, '
         'finalize_reset_with_key, finalize); model state per object = (key, bytes since reset); every emitted digest must equal the '
         'reference hash of the model state; exhaustive op sequences to depth 2 (quick) / 3 (thorough) over a 15-symbol alphabet plus '
         'random histories; distinct = (variant, op-kind sequence with chunk-length classes)')
@@ -98,8 +98,11 @@ def random_history(rng, bs, blake, maxkey):
             cls = rng.below(8)
             ln = [0, 1, bs - 1, bs, bs + 1, rng.rng(2, bs - 2), bs * rng.rng(2, 4) + rng.choice([0, 1, bs - 1]), rng.rng(0, 5 * bs)][cls]
             steps.append('%s.%d.%s' % ('u' if rng.below(2) else 'm', ob, rng.data(ln)))
-        elif r < 65 and nobj < 5:
+        elif r < 62 and nobj < 5:
             steps.append('c.%d.%d' % (ob, nobj)); live.append(nobj); nobj += 1
+        elif r < 65 and len(live) > 1:
+            src = rng.choice([x for x in live if x != ob])
+            steps.append('cf.%d.%d' % (ob, src))      # ob.clone_from(&src)
         elif r < 75:
             steps.append('r.%d' % ob)
         elif r < 88:
@@ -182,6 +185,10 @@ def model(line):
         elif p[0] == 'c':
             objs[int(p[2])] = [st[0], st[1]]
             cov.append('clone')
+        elif p[0] == 'cf':
+            src = objs[int(p[2])]
+            objs[ob] = [src[0], src[1]]
+            cov.append('clone_from')
         elif p[0] == 'r':
             st[0] = b''; st[1] = b''
             cov.append('reset')
